@@ -88,6 +88,16 @@ CHECKS = {
          "46 syntactic positions (operands of every operator class, call arguments and receivers, macro ranges/bodies/nested bodies/predicates, reduce seed and step, f-string segments, index expressions, map keys and values, list elements, match scrutinees/patterns/arms, ternary conditions and branches incl. untaken ones, has/coalesce arguments, member chain roots, parentheses) x 4 fillers, and all ordered pairs of positions x fillers (8464 programs): Free(E) in params(E) in Idents(E); binding every reported name leaves no free variable unbound; filter_from_bindings removes exactly the names bound as variable (every subset of up to 2), function or macro. Complete for these bounds only.",
          "Loop variables, function names and field names may be reported; only names that do not occur in the source are excluded.",
          "DESIGN.md section 3, C17"),
+ "C19": ("exploration",
+         "bounded exhaustive enumeration of generated and constant-rich programs x {serde_json, bincode} x bindings, differential between the original and the round-tripped program",
+         "13k/0.3M programs: the C10 program set (every ByteCode variant, nested code blocks for calls, macros and f-strings) plus 428 constant-rich programs (every serialisable value variant with boundary payloads - int/uint extremes, +-0.0, +-inf, NaN, subnormals, strings with quotes/NUL/non-BMP, all 256 bytes, nested lists/maps, types, timestamps and durations at millisecond resolution incl. negative and extreme - and every error constant the folder produces, each alone and inside a list, a map, a comparison, a macro, a ternary, a coalesce) in both formats: serialization and deserialization succeed, source and parameter set equal, a second round trip has the same bytes, and both programs give the same value or the same error kind under 4 bindings. Complete for this program set only.",
+         "Sub-millisecond time constants are outside the statement. For programs reading the clock only the outcome class is compared. The Python/WASM entry points are not built; they call the same serde implementations.",
+         "DESIGN.md section 3, C19"),
+ "C20": ("exploration",
+         "bounded exhaustive enumeration of source trees over the translatable subset and of hostile string literals in every string position; the emitted SQL is read back by an independent tokenizer/parser for the emitted dialect and compared with the source tree",
+         "All source trees with <=1/2 construct nodes over 8 leaves and the full alphabet (14 binary operators, ! and - runs, ?:, parentheses, lists, maps, free calls with 0..3 arguments, 9 type constructors with 0..2 arguments, method calls on any receiver, member and index access) plus all trees with exactly 2/3 nodes over a reduced alphabet (472k / 60M), match/bytes/f-string in 12 positions each, and all 820/7381 strings of length <=3/4 over {a ' \" \\ - ; LF * /} in 9 positions. The SQL is tokenised by the SQL standard string rules and parsed with SQL precedences (:: [] -> call tightest, then ! -, * / %, + -, comparisons/in, AND, OR): the tree must equal the source tree, the multiset of string tokens must equal the CEL strings and member names, no comment opener or semicolon outside a string; untranslatable constructs must be reported unsupported, never a panic. Complete for these bounds only.",
+         "Trusted: the reader in c20.rs as the meaning of the emitted dialect. Known finding: --x is emitted as the comment opener -- (pinned by a repository test).",
+         "DESIGN.md section 3, C20"),
 }
 
 NOT_YET = "check not built yet in this revision of /verif (work in progress; see DESIGN.md section 3 for the planned bounded-exhaustive check)"
